@@ -21,7 +21,7 @@ import (
 var c17Dict = []string{
 	"rule", "RULE", "when", "When", "then", "THEN", "salience", "Salience", "true", "FALSE", "nil", "NIL",
 	"{", "}", "(", ")", "[", "]", ";", ",", ".", "+", "-", "*", "/", "%", "&", "|", "&&", "||", "!", "=", "==", "!=", "<", "<=", ">", ">=", "+=", "-=", "*=", "/=",
-	"X", "F", "F.A", "Rule2", "whenx", "rulez", "_a", "é", "a_1", "E", "P", "e5", "E+5",
+	"X", "F", "F.A", "Rule2", "Pre1", "Pre2", "rule Pre1", "rule Pre2 \"p\" salience 3", "whenx", "rulez", "_a", "é", "a_1", "E", "P", "e5", "E+5",
 	"0", "1", "-1", "007", "08", "0x", "0x1F", "0xG", "9223372036854775807", "9223372036854775808", "-9223372036854775808", "-9223372036854775809",
 	"2147483647", "2147483648", "-2147483648", "-2147483649", "1.5", ".5", "1.", "1e5", "1e999", "0x1p-2", "0x1p99999", "1e", "1.5.5",
 	`"s"`, `'s'`, `"a\"b"`, `"bad \q"`, `"\x4"`, `"\u12"`, `"\400"`, `"a""b"`, `'a''b'`, `"unterminated`, `'unterminated`, `"\'"`, `'\"'`, `""`,
@@ -143,6 +143,13 @@ var c17Targeted = []string{
 	`rule R "d" "e" { when true then F.A = 1; }`,
 	`rule R { when true then F.A = 1; } rule R { when false then F.A = 2; }`,
 	`rule Pre1 "dup of a preloaded rule" { when true then F.A = 1; }`,
+	`rule Pre1`,
+	`rule Pre1 "x" salience 10`,
+	`rule Pre2 "x"`,
+	`rule Pre1 "x" salience 10 rule Z "z" { when true then F.A = 1; }`,
+	`rule Z "z" { when true then F.A = 1; } rule Pre2`,
+	`rule Pre1 "x" {`,
+	`rule Pre2 "x" { when`,
 	`rule true "d" { when true then F.A = 1; }`,
 	`rule R "d" { when true then true = 1; }`,
 	`rule R "d" { when true then F.rule = 1; }`,
